@@ -26,6 +26,8 @@ PROFILE = {
 
 def check(case: dict) -> Verdict:
     v = Verdict()
+    if case.get("string_answers") and case["entry"].endswith(".call") and "decorator" not in case["entry"]:
+        case = {**case, "calls": [{**c, "handler": ["str:" + d for d in c["handler"]]} if c.get("handler") else c for c in case["calls"]]}
     env, cvs = C.run(case)
     out: list = []
     budget = oracles.BudgetModel(case["cfg"].get("budget"))
@@ -122,7 +124,7 @@ PROP = Property(
     ),
     assumptions=["model and implementation arithmetic are both exact on the k/64 s grid"],
     streams=[
-        Stream("model", check, strategy=C.with_entry(gen.retry_case(PROFILE), C.WIDE_ENTRIES), quick=16000, thorough=400000),
+        Stream("model", check, strategy=st.tuples(C.with_entry(gen.retry_case(PROFILE), C.WIDE_ENTRIES), st.sampled_from([False] * 9 + [True])).map(lambda t: {**t[0], "string_answers": t[1]}), quick=16000, thorough=400000),
         Stream("garbage_delay", check_garbage, strategy=garbage_case(), quick=2000, thorough=40000),
     ],
 )
